@@ -78,7 +78,9 @@ def run_verus(path, seed=0, rlimit=None, extra=(), timeout=1800):
             continue
         lvl = d.get('level')
         msg = d.get('message', '')
-        spans = [(s['line_start'], s['line_end'], s['is_primary'], s.get('label') or '', s.get('byte_start'), s.get('byte_end')) for s in d.get('spans', [])]
+        spans = [(s['line_start'], s['line_end'], s['is_primary'], s.get('label') or '', s.get('byte_start'), s.get('byte_end'), s.get('file_name', '')) for s in d.get('spans', [])
+                 ]
+        spans = [s if os.path.basename(s[6]) == os.path.basename(path) else (0, 0, s[2], s[3], None, None, s[6]) for s in spans]
         rec = {'message': msg, 'spans': spans, 'rendered': d.get('rendered', ''), 'level': lvl}
         if lvl == 'error':
             if msg.startswith('aborting due to'):
@@ -148,7 +150,9 @@ def map_failures(g, res):
                             oid = f'{g.unit}::{fi.name}::{sect.replace(" ", "")}:post:{lab[1]}'
                         else:
                             oid = f'{g.unit}::{fi.name}::post:{lab[1]}'
-                if oid is None and 'false' in (g.lines[clause[0] - 1] if clause else ''):
+                if oid is None and clause[0] == 0:
+                    oid = f'{g.unit}::{fi.name}::post:trait'
+                if oid is None and 'canary__' in (g.lines[clause[0] - 1] if clause else ''):
                     oid = f'{g.unit}::{fi.name}::canary'
                 if oid is None:
                     oid = f'{g.unit}::{fi.name}::post:<unlabelled:{g.lines[clause[0]-1].strip()[:60]}>'
